@@ -440,7 +440,8 @@ func diffMaps(want, got map[string]string) string {
 // partition count shrink ... Removal happens only through an explicit topic
 // deletion."
 func (w *w3) checkTopics() {
-	simrt.Sleep(time.Duration(w.cfg("settle_ms", 4000)) * time.Millisecond)
+	// longer than the longest injected delay (4 s) plus the watchers' reconnect delay
+	simrt.Sleep(time.Duration(w.cfg("settle_ms", 4000))*time.Millisecond + 6*time.Second)
 	w.sim.Probe("c21.judged")
 	want := map[string]int32{}
 	deleted := map[string]bool{}
